@@ -48,6 +48,7 @@ def workload(case: dict, root_dir: str, on_root_only_fs: bool = True):
 
     kind = case["kind"]
     mw = case.get("max_workers")
+    progress = bool(case.get("progress"))  # progress display (only the root rank prints)
     root = Path(root_dir)
     out = {}
     if kind == "iter":
@@ -70,7 +71,7 @@ def workload(case: dict, root_dir: str, on_root_only_fs: bool = True):
         if cat.get("z") is not None:
             data["z"] = np.asarray(cat["z"], float)
             names["redshift_name"] = "z"
-        kw = dict(names, degrees=False, chunksize=case.get("chunksize"), max_workers=mw)
+        kw = dict(names, degrees=False, chunksize=case.get("chunksize"), max_workers=mw, progress=progress)
         if case.get("patch_mode") == "ids":
             data["pid"] = np.asarray(cat["pid"], dtype=np.int64)
             kw["patch_name"] = "pid"
@@ -107,7 +108,7 @@ def workload(case: dict, root_dir: str, on_root_only_fs: bool = True):
         out["reload_radii"] = _arr(again.get_radii().data)
         return out
     if kind == "trees":
-        ref.build_trees(np.asarray(cfg.binning.edges), closed=str(cfg.binning.closed), max_workers=mw)
+        ref.build_trees(np.asarray(cfg.binning.edges), closed=str(cfg.binning.closed), max_workers=mw, progress=progress)
         parallel.COMM.Barrier()
         if parallel.on_root():
             from yaw.catalog.trees import BinnedTrees
@@ -115,14 +116,14 @@ def workload(case: dict, root_dir: str, on_root_only_fs: bool = True):
             out["trees"] = {str(pid): [(int(t.num_records), float(t.sum_weights)) for t in BinnedTrees(patch).trees] for pid, patch in ref.items()}
         return out
     if kind == "hist":
-        h = HistData.from_catalog(ref, cfg, max_workers=mw)
+        h = HistData.from_catalog(ref, cfg, max_workers=mw, progress=progress)
         out["hist_data"], out["hist_samples"] = _arr(h.data), _arr(h.samples)
         return out
     # full pipeline
     if case.get("auto"):
-        cfs = yaw.autocorrelate(cfg, ref, rand, count_rr=True, max_workers=mw)
+        cfs = yaw.autocorrelate(cfg, ref, rand, count_rr=True, max_workers=mw, progress=progress)
     else:
-        cfs = yaw.crosscorrelate(cfg, ref, unk, unk_rand=rand, max_workers=mw)
+        cfs = yaw.crosscorrelate(cfg, ref, unk, unk_rand=rand, max_workers=mw, progress=progress)
     out["corrfunc"] = [_cf_summary(cf) for cf in cfs]
     if parallel.on_root():
         with np.errstate(all="ignore"):
@@ -130,7 +131,10 @@ def workload(case: dict, root_dir: str, on_root_only_fs: bool = True):
             den_member = cfs[0].rr if cfs[0].rr is not None else cfs[0].dr
             den = den_member.sample_patch_sum()
         out["sample_data"], out["sample_samples"] = _arr(s.data), _arr(s.samples)
-        out["den_data"], out["den_samples"] = _arr(den.data), _arr(den.samples)
+        # where a normalisation is degenerate (see pipeline.normalisation_ok) the denominators are zeroed,
+        # which makes the comparison skip those entries
+        nd, ns_ = pl.normalisation_ok(cfs[0])
+        out["den_data"], out["den_samples"] = _arr(np.where(nd, den.data, 0.0)), _arr(np.where(ns_, den.samples, 0.0))
     if kind == "pipeline_io":
         cfs[0].to_file(root / "cf.hdf5")
         back = CorrFunc.from_file(root / "cf.hdf5")
